@@ -38,6 +38,9 @@ def main():
         os.symlink(os.path.join(agent_root, "out"), os.path.join(wt, "out"))
         demo = meta.get("demo_cmd", "")
         demo = demo.replace(agent_root + "/", "").replace(agent_root, ".")
+        # drop a trailing remark in parentheses
+        import re as _re
+        demo = _re.sub(r"\s{2,}\(.*$", "", demo).strip()
         # keep the exit status of the test: drop a trailing clean-up command
         if ";" in demo and demo.rsplit(";", 1)[1].strip().startswith("rm "):
             demo = demo.rsplit(";", 1)[0].strip()
